@@ -280,12 +280,34 @@ func NewPolyEnv(fn *ssa.Function) *PolyEnv {
 	return &PolyEnv{Fn: fn, memo: map[ssa.Value]*Poly{}, Pure: map[string]bool{}}
 }
 
+// ParamAlias gives canonical (role) names to parameters so that rules written against today's
+// source names keep working when a parameter or receiver is renamed.
+var ParamAlias = map[*ssa.Parameter]string{}
+
+// AliasParams names fn's parameters (receiver first) canonically by position.
+func AliasParams(fn *ssa.Function, names ...string) bool {
+	if len(fn.Params) != len(names) {
+		return false
+	}
+	for i, p := range fn.Params {
+		ParamAlias[p] = names[i]
+	}
+	return true
+}
+
+func paramName(p *ssa.Parameter) string {
+	if a, ok := ParamAlias[p]; ok {
+		return a
+	}
+	return p.Name()
+}
+
 // AccessPath gives a stable name for an address or value: parameter and field chain.
 // ok=false when the value is not a parameter/free-variable/global rooted field path.
 func AccessPath(v ssa.Value) (string, bool) {
 	switch x := v.(type) {
 	case *ssa.Parameter:
-		return x.Name(), true
+		return paramName(x), true
 	case *ssa.FreeVar:
 		return x.Name(), true
 	case *ssa.Global:
@@ -311,6 +333,13 @@ func AccessPath(v ssa.Value) (string, bool) {
 	case *ssa.Alloc:
 		// a local whose address is taken: name by its source name when unique
 		if x.Comment != "" {
+			if fn := x.Parent(); fn != nil {
+				for _, pa := range fn.Params {
+					if pa.Name() == x.Comment {
+						return "local:" + paramName(pa), true
+					}
+				}
+			}
 			return "local:" + x.Comment, true
 		}
 	case *ssa.IndexAddr:
@@ -476,7 +505,7 @@ func (e *PolyEnv) of(v ssa.Value) *Poly {
 		}
 		return PAtom("const:" + x.Value.ExactString())
 	case *ssa.Parameter:
-		return PAtom(x.Name())
+		return PAtom(paramName(x))
 	case *ssa.FreeVar:
 		return PAtom(x.Name())
 	case *ssa.Convert:
